@@ -335,6 +335,9 @@ func TestC10(t *testing.T) {
 				e := drawEntry(rt)
 				signer := signerFor(rt, e)
 				hp, acct := craft(rt, "hashPath", e.Address), craft(rt, "account", e.Account)
+				if rapid.IntRange(0, 5).Draw(rt, "ownerAddressForAccount") == 0 {
+					acct = e.Owner // the owner address where the account hash is expected
+				}
 				t, found := w.model[ftKey(hp, ftOwnerAddr(hp, acct))]
 				verdict := mustFail
 				if found && w.isOwner(t, signer.Bech) {
@@ -348,6 +351,9 @@ func TestC10(t *testing.T) {
 				e := drawEntry(rt)
 				signer := signerFor(rt, e)
 				addr, acct := craft(rt, "address", e.Address), craft(rt, "fileOwner", e.Account)
+				if rapid.IntRange(0, 5).Draw(rt, "ownerAddressForAccount") == 0 {
+					acct = e.Owner // the owner field in the form the access-list messages take (the entry's owner address)
+				}
 				newAcct := hexsha(drawAcc(rt, "newOwner").Bech)
 				switch rapid.IntRange(0, 9).Draw(rt, "oddNewOwner") {
 				case 0:
@@ -405,6 +411,9 @@ func TestC10(t *testing.T) {
 				e := drawEntry(rt)
 				signer := signerFor(rt, e)
 				addr, owner := craft(rt, "address", e.Address), craft(rt, "fileOwner", e.Owner)
+				if rapid.IntRange(0, 5).Draw(rt, "accountForOwnerAddress") == 0 {
+					owner = e.Account // the account hash where the owner address is expected
+				}
 				t, found := w.model[ftKey(addr, owner)]
 				verdict := mustFail
 				if found && w.isOwner(t, signer.Bech) {
